@@ -214,17 +214,17 @@ def check(run):
     untouched = [f["name"] for f in table if not stats.get("touched", {}).get(f["name"])]
     if untouched:
         raise vp.Undecided("fields of the specification's table no enumerated mutation touched on the real protobuf: %s" % untouched)
-    m = 1 if quick else 8
     by = stats.get("by_form", {})
-    req = {"cases": (stats.get("cases", 0), 7000 * m), "accepted": (stats.get("by_res", {}).get("ok", 0), 300 * m),
-           "rejected": (stats.get("by_res", {}).get("rej", 0), 5000 * m), "honest_accepted": (stats.get("honest_accepted", 0), 200),
+    n_cases, n_ok, n_rej, n_form = (7000, 300, 5000, 250) if quick else (100000, 1000, 90000, 800)
+    req = {"cases": (stats.get("cases", 0), n_cases), "accepted": (stats.get("by_res", {}).get("ok", 0), n_ok),
+           "rejected": (stats.get("by_res", {}).get("rej", 0), n_rej), "honest_accepted": (stats.get("honest_accepted", 0), 200),
            "mutations_applied": (stats.get("mutations", 0), 1500), "mutations_rejected": (stats.get("mut_res", {}).get("rej", 0), 1200),
            "schema_fields_walked": (len(real), len(table)), "schema_fields_touched": (len(table) - len(untouched), len(table)),
            "grammar_token_streams": (stats.get("gram_tok_lines", 0), 200), "grammar_v3_preimages": (stats.get("gram_ref_lines", 0), 200),
            "grammar_structure_pairs": (stats.get("gram_pair_lines", 0), 20000)}
     req["coinbase_blocks_played"] = (sum(v for k, v in stats.get("by_res", {}).items() if k.startswith("cb:")), 2)
     for f in ("address", "multi-address", "multi-account-uris", "account-initiator", "account-initiator+signers", "xsign0", "xsign2"):
-        req["form_" + f] = (by.get(f, 0), 250 * m)
+        req["form_" + f] = (by.get(f, 0), n_form)
     for v in ("flip", "clear", "append", "inc", "drop", "dup", "swap", "add", "nil", "addkey", "delkey", "chval"):
         for s in ("none", "fixid"):
             req["mut_%s_%s" % (v, s)] = (stats.get("mut_by_var", {}).get(v + "/" + s, 0), 5)
